@@ -503,6 +503,7 @@ CLEANUP_KINDS = {
     "errorf": lambda: [op("errorf", text="from cleanup")],
     "skips": lambda: [op("skip")],
     "nested": lambda: [op("cleanup", body=[op("cleanup", body=[op("ctx", text="in-cleanup")])])],
+    "goexit": lambda: [op("goexit")],       # ends the goroutine without a panic (FailNow of an enclosing testing.T does this)
 }
 ENDINGS = {
     "ret": [], "skip": [op("skip")], "fatal": [op("fatalf", site=1)], "panic": [op("panic", val="error", site=1)],
@@ -512,9 +513,14 @@ ENDINGS = {
 
 
 def c10_body(rng):
-    ks = sorted(CLEANUP_KINDS)
+    ks = sorted(k for k in CLEANUP_KINDS if k != "goexit")
     pick = lambda: CLEANUP_KINDS[rng.choice(ks)]()
-    body = [op("ctx", text="body")]
+    body = [op("ctx", text="body")] if rng.random() < 0.6 else []
+    if rng.random() < 0.35:
+        # several goroutines obtain the context for the first time together (held at rapid's gate between the fast and the slow path)
+        body.append(op("go", n=rng.choice([2, 3, 4]), val="ctx.miss", body=[op("ctx", text="goroutine")]))
+    if rng.random() < 0.2:
+        body.append(op("cleanupnil"))
     for _ in range(rng.randrange(0, 3)):
         body.append(op("cleanup", body=pick()))
     body.append(draw(g("Int16"), "x", "x"))
@@ -546,6 +552,13 @@ def c10(tier, seed):
         fl = {"checks": rng.choice([3, 20, 100]), "seed": rng.randrange(1, 1 << 64), "steps": rng.choice([2, 10]),
               "nofailfile": rng.choice(["true", "false"]), "shrinktime": rng.choice(["0s", "200ms", "30s"])}
         out.append(scenario("c10-%s-%d" % (e, i), {"body": body}, fl, tag={"ending": e}))
+    # a cleanup that ends the goroutine without panicking: the earlier-registered cleanups still run
+    for i in range(6 if tier == "quick" else 60):
+        body = [op("ctx", text="body"), op("cleanup", body=[op("ctx", text="in-cleanup")]), op("cleanup", body=CLEANUP_KINDS[rng.choice(["plain", "registers"])]()),
+                draw(g("Custom", elem=g("Int8"), body=[op("cleanup", body=[op("ctx", text="in-cleanup")]),
+                                                       op("cleanup", body=[op("goexit")] if i % 2 else [op("ctx", text="in-cleanup")])]), "c"),
+                op("cleanup", body=[op("goexit")] if i % 2 == 0 else [op("ctx", text="in-cleanup")]), op("cleanup", body=[op("ctx", text="in-cleanup")])]
+        out.append(scenario("c10-goexit-%d" % i, {"body": body}, {"checks": 5, "seed": rng.randrange(1, 1 << 64), "nofailfile": "true"}, tag={"ending": "goexit in cleanup"}))
     # fail-file replay (runs 1/2) and fuzzing go through the same brackets
     for i in range(4 if tier == "quick" else 60):
         body = c10_body(rng) + ENDINGS["threshold"]
